@@ -94,7 +94,8 @@ class Built(object):
     def run_native(self, inputs, tag=None, keep_going=False):
         """Run the native harness on {name: int}. -> (status, {output name: int}, [event lines])
         status: 'done' | 'exit' | 'assert:<id>' (the first one) | 'fail:<id>' | 'assume' |
-        'missing:<name>' | 'crash:<rc>'.  keep_going: do not stop at a failing assertion."""
+        'missing:<name>' | 'memory' (ASan report / SIGSEGV) | 'crash:<rc>'.
+        keep_going: do not stop at a failing assertion."""
         self._n += 1
         path = os.path.join(self.work, 'in_%s_%d.txt' % (tag or os.getpid(), self._n))
         with open(path, 'w') as f:
@@ -102,6 +103,7 @@ class Built(object):
                 f.write('%s %d\n' % (k, int(v) & 0xffffffffffffffff))
         env = dict(os.environ)
         env.pop('LLSYM_KEEP_GOING', None)
+        env['ASAN_OPTIONS'] = 'detect_leaks=0'
         if keep_going:
             env['LLSYM_KEEP_GOING'] = '1'
         p = subprocess.run([self.native, path], stdout=subprocess.PIPE, stderr=subprocess.STDOUT,
@@ -130,16 +132,20 @@ class Built(object):
                     status = 'exit'
                 elif w[0] == 'DONE':
                     status = 'done'
-        if status is None or (p.returncode not in (0, 10, 11, 12, 13)):
+        if 'AddressSanitizer' in p.stdout or p.returncode == -11:
+            status = 'memory'          # out-of-bounds access (ASan report or SIGSEGV)
+        elif status is None or (p.returncode not in (0, 10, 11, 12, 13)):
             status = 'crash:%d' % p.returncode
         return status, outs, events
 
 
 def build(name, ffi=False, no_inline=True, opt='-O1', extra_defs=(), src=None, prepare=None,
-          ir_cflags=()):
+          ir_cflags=(), asan=False):
     """Compile /verif/harness/c/<name>.c (or src) both ways; raises BuildError with the compiler
     output.  prepare(work_dir), if given, runs before the compilers (generated includes such as
-    the function slices of slice.py go there; the work dir is on the include path)."""
+    the function slices of slice.py go there; the work dir is on the include path).
+    asan: build the native twin with AddressSanitizer, so that an out-of-bounds access found by
+    the executor can be replayed (run_native status 'memory')."""
     work = os.path.join(common.WORK, 'llsym', name)
     shutil.rmtree(work, ignore_errors=True)
     os.makedirs(work)
@@ -162,8 +168,9 @@ def build(name, ffi=False, no_inline=True, opt='-O1', extra_defs=(), src=None, p
     _run(cmd)
     native = os.path.join(work, name + '.native')
     obj = os.path.join(work, name + '.o')
-    _run(['gcc', '-O0', '-g', '-std=gnu99', '-w', '-c'] + inc + [src, '-o', obj])
-    link = ['gcc', obj, os.path.join(HARNESS_C, 'llsym_native.c'), '-I', HARNESS_C, '-o', native]
+    san = ['-fsanitize=address', '-fno-omit-frame-pointer'] if asan else []
+    _run(['gcc', '-O0', '-g', '-std=gnu99', '-w', '-c'] + san + inc + [src, '-o', obj])
+    link = ['gcc'] + san + [obj, os.path.join(HARNESS_C, 'llsym_native.c'), '-I', HARNESS_C, '-o', native]
     libs = ['-lffi'] if ffi else []
     p = subprocess.run(link + libs, stdout=subprocess.PIPE, stderr=subprocess.STDOUT, text=True)
     if p.returncode != 0:
